@@ -1,1 +1,103 @@
-import CnlModel.Layered
+import CnlProofs.Scaled
+/-!
+# C02 — `/` and `%` on `scaled_integer` obey the integer-division contract
+
+Notation as in C01: `sc T e ρ v` is `scaled_integer<T, power<e, ρ>>` with representation `v`
+(any width, any exponent, any radix), `T = usualArith L R` the built-in result type.
+`/` and `%` are "non zero-degree" operators (`scaled/binary_operator.h`): they act on the two
+representations directly; the exponent rules are those of `scaled/definition.h`.
+
+`DivGuard L R l r` is the property's guard: the usual arithmetic conversions keep both values
+(`T.wrap l = l`, `T.wrap r = r` — this fails only when a negative signed operand meets an unsigned
+type of at least its rank), `r ≠ 0`, and not `lowest / -1` in a signed `T`.
+
+* `div_mod_values` — `a / b` has exponent `eL - eR` and representation `l.tdiv r` (truncation toward
+  zero), `a % b` has exponent `eL` and representation `l.tmod r`; both of type `T`; no undefined
+  behaviour.
+* `div_mod_identity` — the model evaluation of the C++ expression `(a/b)*b + a%b == a` (five
+  operator applications: `/`, `*`, `%`, `+`, `==`) is `true`: the product `(a/b)*b` has exponent
+  `(eL-eR)+eR = eL` so the final `+` needs no alignment, `|q·r| ≤ |l|` so no intermediate overflows.
+  Holds for **all** operand type pairs, widths, exponents and radixes.
+* `remainder_sign_magnitude` — the remainder is zero or has the sign of the dividend, and its
+  representation magnitude is strictly below that of the divisor.
+* `div_by_zero_undefined`, `div_overflow_undefined` — outside the guard the evaluation is undefined
+  (as for the built-in operators), so the guard is not stronger than needed.
+
+The `quotient()` clause of C02 is proved with the fraction model (`CnlProofs.MakeFraction`), not here.
+-/
+namespace Cnl.C02
+open Cnl Cnl.Spec Cnl.Layered Cnl.ScaledP
+
+/-- representation values and exponents of `a / b` and `a % b` -/
+theorem div_mod_values (L R : IntTy) (eL eR : Int) (ρ : Nat) (l r : Int) (g : DivGuard L R l r) :
+    Layered.bin .div (sc L eL ρ l) (sc R eR ρ r) = .ok (sc (usualArith L R) (eL - eR) ρ (l.tdiv r))
+    ∧ Layered.bin .mod (sc L eL ρ l) (sc R eR ρ r) = .ok (sc (usualArith L R) eL ρ (l.tmod r)) :=
+  ⟨bin_div g eL eR ρ, bin_mod g eL eR ρ⟩
+
+/-- the same with the guard spelled out -/
+theorem div_mod_values' (L R : IntTy) (eL eR : Int) (ρ : Nat) (l r : Int)
+    (hwl : (usualArith L R).wrap l = l) (hwr : (usualArith L R).wrap r = r) (hr0 : r ≠ 0)
+    (hov : ¬ ((usualArith L R).signed = true ∧ l = (usualArith L R).lowest ∧ r = -1)) :
+    Layered.bin .div (sc L eL ρ l) (sc R eR ρ r) = .ok (sc (usualArith L R) (eL - eR) ρ (l.tdiv r))
+    ∧ Layered.bin .mod (sc L eL ρ l) (sc R eR ρ r) = .ok (sc (usualArith L R) eL ρ (l.tmod r)) :=
+  div_mod_values L R eL eR ρ l r ⟨hwl, hwr, hr0, hov⟩
+
+/-- `(a/b)*b + a%b == a` evaluates to `true`, with no undefined behaviour on the way -/
+theorem div_mod_identity (L R : IntTy) (hL : 1 ≤ L.bits) (hR : 1 ≤ R.bits) (eL eR : Int) (ρ : Nat)
+    (l r : Int) (hr : R.InRange r) (g : DivGuard L R l r) :
+    divModIdentity (sc L eL ρ l) (sc R eR ρ r) = .ok true :=
+  divModIdentity_true hL hR hr g eL eR ρ
+
+/-- what the identity says about the representations: `q·r + m = l` at the dividend's exponent -/
+theorem div_mod_identity_values (l r : Int) : l.tdiv r * r + l.tmod r = l := by
+  rw [Int.mul_comm]; exact Int.mul_tdiv_add_tmod l r
+
+/-- the remainder is zero or has the sign of the dividend; its magnitude is below the divisor's -/
+theorem remainder_sign_magnitude (l r : Int) (hr : r ≠ 0) :
+    (0 ≤ l → 0 ≤ l.tmod r) ∧ (l ≤ 0 → l.tmod r ≤ 0) ∧ (l.tmod r).natAbs < r.natAbs := by
+  have hf := tdiv_tmod_facts l r hr
+  refine ⟨fun h => (hf.2.1 h).1, fun h => (hf.2.2.1 h).1, ?_⟩
+  rw [Int.natAbs_tmod]
+  exact Nat.mod_lt _ (by omega)
+
+/-- the quotient is the exact quotient truncated toward zero -/
+theorem quotient_truncated (l r : Int) (hr : r ≠ 0) : IsRounded .truncate l r (l.tdiv r) :=
+  roundDiv_truncate l r hr
+
+/-- division by zero is undefined -/
+theorem div_by_zero_undefined (L R : IntTy) (eL eR : Int) (ρ : Nat) (l : Int) :
+    Layered.bin .div (sc L eL ρ l) (sc R eR ρ 0) = .ub .divByZero
+    ∧ Layered.bin .mod (sc L eL ρ l) (sc R eR ρ 0) = .ub .divByZero := by
+  have hT := usualArith_bits_pos L R
+  have w0 : (usualArith L R).wrap 0 = 0 := IntTy.wrap_id hT (Rounding.zero_le_max _)
+  have hd := bin_direct .div (Or.inr (Or.inl rfl)) L R eL eR ρ l 0
+  have hm := bin_direct .mod (Or.inr (Or.inr rfl)) L R eL eR ρ l 0
+  rw [show Elastic.AOp.toBin .div = BinOp.div from rfl] at hd
+  rw [show Elastic.AOp.toBin .mod = BinOp.mod from rfl] at hm
+  rw [hd, hm]
+  simp only [cBin, w0, ite_true]
+  exact ⟨rfl, rfl⟩
+
+/-- `lowest / -1` in a signed result type is undefined -/
+theorem div_overflow_undefined (L R : IntTy) (eL eR : Int) (ρ : Nat) (l r : Int)
+    (hs : (usualArith L R).signed = true) (hl : (usualArith L R).wrap l = (usualArith L R).lowest)
+    (hr : (usualArith L R).wrap r = -1) :
+    Layered.bin .div (sc L eL ρ l) (sc R eR ρ r) = .ub .divOverflow := by
+  have hd := bin_direct .div (Or.inr (Or.inl rfl)) L R eL eR ρ l r
+  rw [show Elastic.AOp.toBin .div = BinOp.div from rfl] at hd
+  rw [hd]
+  simp only [cBin, hl, hr, hs, and_self, ite_true]
+  rfl
+
+/-! Non-vacuity -/
+
+example : DivGuard i32 i16 (-7) 2 := ⟨by decide, by decide, by decide, by decide⟩
+example : Layered.bin .div (sc i32 (-4) 2 (-7)) (sc i16 3 2 2) = .ok (sc i32 (-7) 2 (-3)) := by decide
+example : Layered.bin .mod (sc i32 (-4) 2 (-7)) (sc i16 3 2 2) = .ok (sc i32 (-4) 2 (-1)) := by decide
+example : divModIdentity (sc i32 (-4) 10 (-7)) (sc i16 3 10 2) = .ok true := by decide
+example : divModIdentity (sc u8 5 2 200) (sc i8 (-70) 2 (-3)) = .ok true := by decide
+-- outside the guard: a negative dividend meets an unsigned divisor type of rank `int`
+example : ¬ DivGuard i32 u32 (-7) 2 := fun g => absurd g.wl (by decide)
+example : Layered.bin .div (sc i32 0 2 (-7)) (sc u32 0 2 2) = .ok (sc u32 0 2 2147483644) := by decide
+
+end Cnl.C02
